@@ -32,12 +32,12 @@ JudgeOne(i) ==
       anyErr == \E j \in DOMAIN o.results : o.results[j].err
       x == [lookup_bad |-> o.lookup_bad, early_open |-> o.early_open, tmp_left |-> o.tmp_left,
             manifest_same |-> o.manifest_same, canon_same |-> o.canon_same, dirs_ok |-> o.dirs_ok,
-            unscripted |-> o.unscripted, diags_ok |-> o.diags_ok]
+            unscripted |-> o.unscripted, diags_ok |-> o.diags_ok, reopen_diff |-> o.reopen_diff, archive_diff |-> o.archive_diff]
       v == VerdictW(W, adds, o.events, o.calls, pk, res, dep, anyErr, o.refused_after, o.bundle_ok, x)
   IN PrintT("@@" \o ToJson([fam |-> "judge", idx |-> i,
         v |-> v @@ [c19 |-> o.panic = "", w19 |-> IF o.panic = "" THEN {} ELSE {o.panic}, kf19 |-> ""],
         l1 |-> [st |-> "", why |-> "", v |-> [c14 |-> TRUE, w14 |-> {}, c08 |-> TRUE, w08 |-> {}, c17 |-> TRUE, w17 |-> {},
-                                              c12 |-> TRUE, w12 |-> {}, c13 |-> TRUE, w13 |-> {}, c10 |-> TRUE, w10 |-> {}, c19 |-> TRUE, w19 |-> {}]]]))
+                                              c12 |-> TRUE, w12 |-> {}, c13 |-> TRUE, w13 |-> {}, c10 |-> TRUE, w10 |-> {}, c09 |-> TRUE, w09 |-> {}, c19 |-> TRUE, w19 |-> {}]]]))
 
 ASSUME \A i \in DOMAIN Obs : JudgeOne(i)
 =============================================================================
